@@ -124,6 +124,7 @@ type Exec struct {
 	unsupportedSeen map[string]int
 	lastPanic       string
 	where           string
+	curInstr        ssa.Instruction
 	Samples         []PathSample
 	TimedOut        bool
 	PathCapHit      bool
@@ -233,13 +234,13 @@ func (ex *Exec) runOnce(fn *ssa.Function) {
 					status = "end: " + v.why
 				case unsupported:
 					status = "unsupported"
-					ex.unsupportedSeen[v.what]++
+					ex.unsupportedSeen[v.what+" @ "+ex.whereNow()]++
 				default:
 					if os.Getenv("VERIF_CRASH") != "" {
 						panic(r)
 					}
 					status = "unsupported"
-					ex.unsupportedSeen["internal: "+fmt.Sprint(r)+" @ "+ex.where]++
+					ex.unsupportedSeen["internal: "+fmt.Sprint(r)+" @ "+ex.whereNow()]++
 				}
 			}
 		}()
@@ -253,6 +254,15 @@ func (ex *Exec) runOnce(fn *ssa.Function) {
 	if status == "ok" || status == "panic" {
 		ex.maybeSample(status, pval)
 	}
+}
+
+func (ex *Exec) whereNow() string {
+	if ex.curInstr == nil {
+		return "?"
+	}
+	fn := ex.curInstr.Parent()
+	pos := ex.prog.Fset.Position(ex.curInstr.Pos())
+	return fmt.Sprintf("%s %s:%d [%s]", fn.String(), pos.Filename, pos.Line, ex.curInstr.String())
 }
 
 // onPanicPath: every harness carries an implicit no-panic obligation.
@@ -637,6 +647,7 @@ func (ex *Exec) call(fn *ssa.Function, args []Value, bind []Value) Value {
 				ex.TimedOut = true
 				panic(pathEnd{"deadline"})
 			}
+			ex.curInstr = in
 			switch v := in.(type) {
 			case *ssa.Phi:
 				continue
@@ -1344,6 +1355,17 @@ func (ex *Exec) binop(op token.Token, a, b Value, opType, resType types.Type) Va
 			return VBool{Not(eq)}
 		}
 	case VStr:
+		if ys, ok := b.(VSlice); ok {
+			// []byte held as a string value compared with a (nil) slice
+			if ys.O == nil {
+				return VBool{BoolC(op == token.NEQ)}
+			}
+			eq := ex.bytesEq(x, ys)
+			if op == token.NEQ {
+				eq = Not(eq)
+			}
+			return VBool{eq}
+		}
 		y := b.(VStr)
 		switch op {
 		case token.EQL:
@@ -1373,6 +1395,9 @@ func (ex *Exec) binop(op token.Token, a, b Value, opType, resType types.Type) Va
 		}
 	case VSlice:
 		// only comparison with nil is legal
+		if _, ok := b.(VStr); ok {
+			return ex.binop(op, b, a, opType, resType)
+		}
 		isNil := x.O == nil
 		if op == token.EQL {
 			return VBool{BoolC(isNil)}
